@@ -22,6 +22,7 @@ import (
 	"os/exec"
 	"path/filepath"
 	"runtime"
+	"runtime/debug"
 	"sort"
 	"strings"
 	"sync"
@@ -530,6 +531,7 @@ type childResult struct {
 	Gomaxprocs    int                     `json:"gomaxprocs"`
 	Replicas      map[string]childReplica `json:"replicas"`
 	Orders        []moduleOrders          `json:"module_orders"`
+	Build         string                  `json:"build"`
 }
 
 // historyShape: digest of the generated history (kinds, notes, block requests): parent and child
@@ -558,9 +560,26 @@ func abciCodecMarshal(m sdk.Msg) ([]byte, error) {
 	return nil, fmt.Errorf("not a proto message")
 }
 
+// buildDescription: how this binary was built (source path as the compiler recorded it, -trimpath setting)
+func buildDescription() string {
+	_, file, _, _ := runtime.Caller(0)
+	d := "source=" + file
+	if bi, ok := debug.ReadBuildInfo(); ok {
+		for _, st := range bi.Settings {
+			if st.Key == "-trimpath" || st.Key == "-tags" {
+				d += " " + st.Key + "=" + st.Value
+			}
+		}
+	}
+	return d
+}
+
 // startChild re-executes this binary as a replica living on a "different host": local time zone
 // Asia/Tokyo (UTC+9), other HOME / HOSTNAME / locale, a single OS thread for goroutines.
-func startChild(outDir string, n, nrec int, only string, now int64, focus string) func() (*childResult, string) {
+func startChild(bin, outDir string, n, nrec int, only string, now int64, focus string) func() (*childResult, string) {
+	if bin == "" {
+		bin = os.Args[0]
+	}
 	dir := filepath.Join(outDir, "child")
 	os.MkdirAll(dir, 0o755)
 	args := []string{"-replica-child", "-tz-offset", "32400", "-out", dir, "-n", fmt.Sprint(n), "-recipes", fmt.Sprint(nrec)}
@@ -568,7 +587,7 @@ func startChild(outDir string, n, nrec int, only string, now int64, focus string
 		args = append(args, "-only", only)
 	}
 	args = append(args, "-now", fmt.Sprint(now), "-focus", focus)
-	cmd := exec.Command(os.Args[0], args...)
+	cmd := exec.Command(bin, args...)
 	var env []string
 	for _, e := range os.Environ() {
 		if !strings.HasPrefix(e, "TZ=") && !strings.HasPrefix(e, "HOME=") && !strings.HasPrefix(e, "HOSTNAME=") && !strings.HasPrefix(e, "GOMAXPROCS=") && !strings.HasPrefix(e, "LANG=") && !strings.HasPrefix(e, "LC_ALL=") {
@@ -646,6 +665,7 @@ func main() {
 	child := flag.Bool("replica-child", false, "internal: run as the child-process replica (other host environment) and write replica.json")
 	tzoff := flag.Int("tz-offset", 0, "internal: seconds east of UTC of the child's local zone")
 	nochild := flag.Bool("no-child", false, "do not start the child-process replica")
+	childBin := flag.String("child-bin", "", "binary to execute as the child-process replica (a DIFFERENTLY BUILT harness: go build -trimpath); default: this binary")
 	nowF := flag.Int64("now", 0, "internal: the real instant (unix seconds) the wall-clock stream is generated around")
 	focus := flag.String("focus", "", "comma separated message names (MsgActivate,...) that reach a new environment site: added to the wall-clock stream probes")
 	flag.Parse()
@@ -679,6 +699,7 @@ func main() {
 	for rep := 0; rep < *nrec+1; rep++ {
 		hs = append(hs, recipeEndBlockerInteraction(rng.Fork(), seed, rep))
 	}
+	hs = append(hs, failingEnactments(rng.Fork(), seed))
 	for i := 0; i < *n; i++ {
 		hs = append(hs, genHistory(rng.Fork(), seed, i))
 	}
@@ -694,12 +715,12 @@ func main() {
 			res[h.Name] = childReplica{Shape: historyShape(h), Blocks: runReplica(h, childIndex)}
 		}
 		_, off := time.Now().Zone()
-		out.WriteJSON("replica.json", childResult{Orders: freshOrders(3), Zone: time.Local.String(), OffsetSeconds: off, Home: os.Getenv("HOME"), Gomaxprocs: runtime.GOMAXPROCS(0), Replicas: res})
+		out.WriteJSON("replica.json", childResult{Orders: freshOrders(3), Build: buildDescription(), Zone: time.Local.String(), OffsetSeconds: off, Home: os.Getenv("HOME"), Gomaxprocs: runtime.GOMAXPROCS(0), Replicas: res})
 		return
 	}
 	var childWait func() (*childResult, string)
 	if !*nochild {
-		childWait = startChild(*outDir, *n, *nrec, *only, *nowF, *focus)
+		childWait = startChild(*childBin, *outDir, *n, *nrec, *only, *nowF, *focus)
 	}
 	all := make([][][]BlockObs, len(run))
 	for i, h := range run {
@@ -716,6 +737,7 @@ func main() {
 			panic("child-process replica failed: " + cerr)
 		}
 		childOrders = cr.Orders
+		childInfo["build"], childInfo["parent_build"] = cr.Build, buildDescription()
 		childInfo["zone"], childInfo["offset_seconds"], childInfo["home"], childInfo["gomaxprocs"] = cr.Zone, cr.OffsetSeconds, cr.Home, cr.Gomaxprocs
 		for i, h := range run {
 			c, ok := cr.Replicas[h.Name]
